@@ -1,6 +1,7 @@
 import RreModel.Proto
 import RreModel.C09.Spec
 import RreModel.C09.Candidates
+import RreModel.C09.Ext
 /-
 Driver for C09 / C10-B.  Grammar: see harness/src/bin/c09.rs.
   obs := `<provable 1|0|err> <facts after> <undo depth after> <#solutions>`
@@ -9,6 +10,9 @@ Driver for C09 / C10-B.  Grammar: see harness/src/bin/c09.rs.
   drv_c09 oracle : case | obs ↦ `ok <tags>` / `fail <clause>`   clauses: goal-false-after (i),
                                 not-reachable (ii), not-restored / leaked-frames (iii), incomplete (iv),
                                 incomplete-interference (iv-b)
+  query := `!<atom>` is the NEGATED query `NOT <atom>` (model: RreModel/C09/Ext.lean; oracle clauses (ii), (iii) only — (i) and
+           (iv) are stated for atomic goals); rule := `*<rule>` is a rule added DISABLED (`enabled = false`): the oracle's
+           rule set (forward closure, completeness) is the ENABLED rules, the model treats a disabled candidate as a no-op
   drv_c09 oracle3: the same with clause (iii) evaluated FIRST (C10 part B: a fact left behind by a failed
                                 proof is usually not forward-reachable either, and must be reported as (iii))
 -/
@@ -134,7 +138,16 @@ structure Case where
   maxSol : Nat
   facts : Facts
   goal : Atom
+  /-- the ENABLED rules (all of them when no rule carries the `*` marker) -/
   kb : List Rule
+  /-- the query is `NOT <goal>` -/
+  neg : Bool := false
+  /-- every rule of `kb.get_rules()`, with its `enabled` flag -/
+  krules : List KRule := []
+
+/-- `*<rule>` = the rule is added disabled -/
+def parseKRule (s : String) : Option KRule :=
+  if s.startsWith "*" then (parseRule (s.drop 1).toString).map (⟨·, false⟩) else (parseRule s).map (⟨·, true⟩)
 
 def parseCfg (s : String) : Option (Strategy × Nat × Nat) := do
   let st ← if s.startsWith "D" then some Strategy.dfs else if s.startsWith "B" then some .bfs
@@ -147,10 +160,12 @@ def parseCase (line : String) : Option Case :=
   match tokens line with
   | [cfg, f, q, r] => do
     let (st, d, m) ← parseCfg cfg
-    let kb ← if r = "-" then some [] else (r.splitOn ";").mapM parseRule
+    let ks ← if r = "-" then some [] else (r.splitOn ";").mapM parseKRule
+    let neg := q.startsWith "!"
+    let q := if neg then (q.drop 1).toString else q
     -- the query travels as a string (`F == 1`): an Integer literal in the case text means the
     -- Number the query parser produces
-    pure ⟨st, d, m, ← parseFacts f, reparse (← parseAtom q), kb⟩
+    pure ⟨st, d, m, ← parseFacts f, reparse (← parseAtom q), enabledRules ks, neg, ks⟩
   | _ => none
 
 /-! ### candidate lists: computed by the model (`RreModel/C09/Candidates.lean`; `C09.topCandidates_covers`,
@@ -189,12 +204,28 @@ def showOut (o : QueryOut) : String :=
 def modelLine (line : String) : String :=
   match parseCase line with
   | some c =>
-    let cands := topCandSet c.kb c.goal
-    if cands.length > 4 then "many-orders"
+    if !c.neg && c.krules.all (·.enabled) then
+      let cands := topCandSet c.kb c.goal
+      if cands.length > 4 then "many-orders"
+      else
+        let outs := (perms cands).map fun order =>
+          showOut (queryFast c.kb c.strategy c.maxDepth c.maxSol (subCandsOf c.kb) c.goal order (storeOf c.facts))
+        " || ".intercalate outs.eraseDups
     else
-      let outs := (perms cands).map fun order =>
-        showOut (queryFast c.kb c.strategy c.maxDepth c.maxSol (subCandsOf c.kb) c.goal order (storeOf c.facts))
-      " || ".intercalate outs.eraseDups
+      -- negated query and / or disabled rules (RreModel/C09/Ext.lean): candidates computed on the full rule list and the
+      -- whole pattern text, renumbered to the enabled rules the search model runs on
+      let crs := crulesK tieNames 0 c.krules
+      let pat := (if c.neg then "NOT " else "") ++ patternOf tieNames c.goal
+      let top := topCandsPat crs pat
+      let cands := top.1.map (remap c.krules)
+      let sub := fun a => (subCandsPat crs (patternOf tieNames a)).map (remap c.krules)
+      if top.2 && cands.length > 4 then "many-orders"
+      else
+        let orders := if top.2 then perms cands else [cands]
+        let outs := orders.map fun order =>
+          showOut (if c.neg then queryNegFast c.kb c.strategy c.maxDepth c.maxSol sub c.goal order (storeOf c.facts)
+                   else queryFast c.kb c.strategy c.maxDepth c.maxSol sub c.goal order (storeOf c.facts))
+        " || ".intercalate outs.eraseDups
   | none => "bad-case"
 
 /-! ### oracle -/
@@ -224,14 +255,14 @@ def oracleLine (iiiFirst : Bool) (line : String) : String :=
           let reach := inReach nFields c.kb before after
           if iiiFirst && depth != 0 then "fail leaked-frames"
           else if iiiFirst && !restored before after depth provable then "fail not-restored"
-          else if provable && !goalHolds c.goal after then
+          else if !c.neg && provable && !goalHolds c.goal after then
             s!"fail goal-false-after ms{if c.maxSol > 1 then "N" else "1"} {if before == after then "rolled-back" else "changed"}"
           else if reach == some false then "fail not-reachable"
           else if depth != 0 then "fail leaked-frames"
           else if !restored before after depth provable then "fail not-restored"
-          else if c.strategy == .dfs && !complete c.kb before c.maxDepth c.goal provable then
+          else if !c.neg && c.strategy == .dfs && !complete c.kb before c.maxDepth c.goal provable then
             s!"fail incomplete ms{if c.maxSol > 1 then "N" else "1"} {if hasIntLiteral c.kb then "int-literal" else "plain"}"
-          else if c.strategy == .dfs && !completeInconsistent nFields c.kb before c.maxDepth c.goal provable then
+          else if !c.neg && c.strategy == .dfs && !completeInconsistent nFields c.kb before c.maxDepth c.goal provable then
             "fail incomplete-interference"
           else
             let d0 := dataOf before
@@ -243,8 +274,13 @@ def oracleLine (iiiFirst : Bool) (line : String) : String :=
                          if c.maxSol > 1 then "msN" else "ms1", s!"rules{c.kb.length}"]
               ++ (if horn then ["horn"] else ["general"])
               ++ (match lvl with | some k => [s!"level{k}"] | none => if horn then ["underivable"] else [])
-              ++ (if horn && derivableIn c.kb d0 c.maxDepth c.goal && c.strategy == .dfs then ["complete_clause_applied"] else [])
-              ++ (if c.strategy == .dfs && interferenceClause nFields c.kb before c.maxDepth c.goal then ["interference_clause_applied"] else [])
+              ++ (if !c.neg && horn && derivableIn c.kb d0 c.maxDepth c.goal && c.strategy == .dfs then ["complete_clause_applied"] else [])
+              ++ (if !c.neg && c.strategy == .dfs && interferenceClause nFields c.kb before c.maxDepth c.goal then ["interference_clause_applied"] else [])
+              ++ (if c.neg then ["negated"] else [])
+              -- a negated DFS query that is not provable although its positive form is false in the initial facts: a proof of
+              -- the positive form was found and discarded
+              ++ (if c.neg && !provable && c.strategy == .dfs && !goalHolds c.goal before then ["neg_found_then_discarded"] else [])
+              ++ (if c.krules.any (!·.enabled) then ["disabled_rules"] else [])
               ++ (if reach == none then ["reach_fuel_out"] else [])
               ++ (if before != after then ["derived_facts"] else [])
               ++ (if rsz > 1 then ["rules_fireable"] else [])
